@@ -372,3 +372,51 @@ Definition legacy_of (st : list trip) : legacy :=
   {| lg_y := map tr_y st; lg_cline := map tr_cl st; lg_dd1 := map tr_d1 st; lg_dd2 := map tr_d2 st;
      lg_cline_idxs := index_dict (map tr_cl st); lg_dd1_idxs := index_dict (map tr_d1 st);
      lg_dd2_idxs := index_dict (map tr_d2 st) |}.
+
+(* ======== ComboGridFactorModel._add_observations (models/grid_combo.py; the variational grid model - not an MCMC model, but a
+   shipped BayesianModel subclass selectable with --model).  Vocabulary of its source translation (harness/src_functions.py
+   C04_GRID_ADD -> Generated/SrcTrainGrid.v) and the hand model.  No proofs here.
+   The object's six growing numpy arrays are six lists.  grid_helper.unpack_data(data, drugname2idx, use_mask=True) is a
+   PRIMITIVE of the translation: it is row-wise over the rows selected by data.observation_mask and reads a row's sample id and
+   treatment names / doses (= its treatment ids, C01) - so its meaning is [unpack_cols u data] for an arbitrary per-row
+   function [u] (sample id, treatment ids) -> (sample id, drug id 1, drug id 2, log10 dose 1, log10 dose 2) over an arbitrary
+   type C of log-concentrations.  The harness checks that reading on the implementation (row-wise, masked rows only, value-blind). *)
+Definition urow (C : Type) : Type := (Z * Z * Z * C * C)%type.
+Definition unpack_fn (C : Type) : Type := Z -> list Z -> urow C.
+Definition unpack_cols {C : Type} (u : unpack_fn C) (data : list trow) : list Z * list Z * list Z * list C * list C :=
+  let rs := map (fun r => u (t_sample r) (t_treats r)) (filter t_mask data) in
+  (map (fun x => match x with (s, _, _, _, _) => s end) rs,
+   map (fun x => match x with (_, a, _, _, _) => a end) rs,
+   map (fun x => match x with (_, _, b, _, _) => b end) rs,
+   map (fun x => match x with (_, _, _, c, _) => c end) rs,
+   map (fun x => match x with (_, _, _, _, d) => d end) rs).
+
+(* the state of the grid model's training arrays: one entry per trained row *)
+Record gtrip (C : Type) := { gt_u : urow C; gt_y : oval }.
+Arguments gt_u {C}. Arguments gt_y {C}.
+Definition grid_cols {C : Type} (st : list (gtrip C)) : list Z * list C * list C * list Z * list Z * list oval :=
+  (map (fun t => match gt_u t with (s, _, _, _, _) => s end) st,
+   map (fun t => match gt_u t with (_, _, _, c, _) => c end) st,
+   map (fun t => match gt_u t with (_, _, _, _, d) => d end) st,
+   map (fun t => match gt_u t with (_, a, _, _, _) => a end) st,
+   map (fun t => match gt_u t with (_, _, b, _, _) => b end) st,
+   map gt_y st).
+
+(* np.clip(y, 0.0, 1.0) *)
+Definition oclip01 (v : oval) : oval := oclip_at 0%Qc 1%Qc v.
+
+Definition grid_trip {C : Type} (u : unpack_fn C) (r : trow) : gtrip C :=
+  {| gt_u := u (t_sample r) (t_treats r); gt_y := oclip01 (t_obs r) |}.
+
+(* _add_observations on a model that already holds [st]: refuses a negative or NaN observation (NaN >= 0 is False), then one
+   entry per row with mask, in order *)
+Definition grid_inner {C : Type} (u : unpack_fn C) (st : list (gtrip C)) (rows : list trow) : result (list (gtrip C)) :=
+  if negb (forallb (fun r => o_nonneg (t_obs r)) rows) then Err 2
+  else Ok (st ++ map (grid_trip u) (filter t_mask rows)).
+Definition grid_add {C : Type} (u : unpack_fn C) (st : list (gtrip C)) (rows : list trow) : result (list (gtrip C)) :=
+  add_observations (grid_inner u st) rows.
+Definition train_grid {C : Type} (u : unpack_fn C) (rows : list trow) : result (list (gtrip C)) :=
+  match train_input rows with
+  | Some o => grid_add u [] o
+  | None => Ok []
+  end.
